@@ -15,6 +15,8 @@ pub mod c10;
 pub mod c11;
 pub mod c12;
 pub mod c13;
+pub mod c14;
+pub mod c15;
 pub mod c16;
 pub mod c17;
 
@@ -27,7 +29,7 @@ pub struct PropDef {
     pub subs: Vec<Box<dyn SubCheck>>,
 }
 
-pub const ALL: [&str; 15] = ["C01", "C02", "C03", "C04", "C05", "C06", "C07", "C08", "C09", "C10", "C11", "C12", "C13", "C16", "C17"];
+pub const ALL: [&str; 17] = ["C01", "C02", "C03", "C04", "C05", "C06", "C07", "C08", "C09", "C10", "C11", "C12", "C13", "C14", "C15", "C16", "C17"];
 
 pub fn get(id: &str, ctx: &Ctx) -> Option<PropDef> {
     match id {
@@ -44,6 +46,8 @@ pub fn get(id: &str, ctx: &Ctx) -> Option<PropDef> {
         "C11" => Some(c11::def(ctx)),
         "C12" => Some(c12::def(ctx)),
         "C13" => Some(c13::def(ctx)),
+        "C14" => Some(c14::def(ctx)),
+        "C15" => Some(c15::def(ctx)),
         "C16" => Some(c16::def(ctx)),
         "C17" => Some(c17::def(ctx)),
         _ => None,
